@@ -113,7 +113,7 @@ func cmdDump(args []string) {
 			rs = append(rs, r)
 		}
 	}
-	discharge(rs, 16, 3*time.Second, time.Duration(*tmo)*time.Second)
+	discharge(rs, 8, 6*time.Second, time.Duration(*tmo)*time.Second)
 	for _, r := range rs {
 		fmt.Printf("== %s (%.2fs gen) err=%q\n", r.Name, r.Secs, r.Err)
 		for k, n := range r.Abstracts {
